@@ -8,6 +8,8 @@ import (
 	"sort"
 	"strings"
 
+	"verifharness/internal/gen"
+
 	"github.com/B1NARY-GR0UP/originium"
 	"github.com/B1NARY-GR0UP/originium/types"
 
@@ -178,9 +180,111 @@ func runC09db(c core.Case) core.Result {
 	return r
 }
 
+// runC09Recovered: many small tables (file indices with one and two digits), handles rebuilt by
+// recovery, then further flushes and compactions ON THE RECOVERED HANDLES; every step is judged like
+// a direct case.
+func runC09Recovered(c core.Case) core.Result {
+	var res core.Result
+	r := rand.New(rand.NewSource(c.Seed))
+	dir := filepath.Join(core.WorkerScratch(), c.ID)
+	mustMkdir(dir)
+	defer os.RemoveAll(dir)
+	l0 := 12 + r.Intn(4) // no automatic compaction while the tables pile up
+	lv := originium.VerifNewLevels(dir, l0, 1+r.Intn(3), gen.BlockThresholds[r.Intn(len(gen.BlockThresholds))])
+	defer lv.Close()
+	set := entrySet{}
+	users := gen.Keys(r, []string{"windowed", "hostile", "plain"}[r.Intn(3)], 14)
+	sort.Strings(users)
+	ts := uint64(1)
+	flushOne := func(v *originium.VerifLevels, i int) bool {
+		var es []vEntry
+		if r.Intn(3) == 0 {
+			es = append(es, contentFor(users[r.Intn(len(users))], ts, 4)) // overlaps something older
+		} else {
+			es = append(es, contentFor(users[i%len(users)], ts, 0))
+		}
+		ts++
+		if r.Intn(2) == 0 {
+			es = append(es, contentFor(users[(i+1)%len(users)], ts, 5))
+			ts++
+		}
+		sortEntries(es)
+		uniq := es[:0]
+		for j, e := range es {
+			if j == 0 || e.User != es[j-1].User || e.Ts != es[j-1].Ts {
+				uniq = append(uniq, e)
+			}
+		}
+		if err := v.Flush(toEntries(uniq)); err != nil {
+			res.Violate("C09", "C09/flush-error", "%v", err)
+			return false
+		}
+		for _, e := range uniq {
+			set.add(e)
+		}
+		return true
+	}
+	n := 10 + r.Intn(3)
+	for i := 0; i < n; i++ {
+		if !flushOne(lv, i) {
+			return res
+		}
+	}
+	if r.Intn(2) == 0 {
+		lv.CompactL0() // the front table and whatever overlaps it move to L1; the others stay
+	}
+	rv, _ := lv.Recover()
+	defer rv.Close()
+	var steps []string
+	absent := []string{"nope", "\x00"}
+	for s := 0; s < 2+r.Intn(4) && res.Verdict == ""; s++ {
+		before := rv.Tables()
+		var what string
+		switch r.Intn(4) {
+		case 0, 1:
+			what = "Flush"
+			if !flushOne(rv, n+s) {
+				return res
+			}
+		case 2:
+			what = "CompactL0"
+			rv.CompactL0()
+		default:
+			what = "CheckAndCompact"
+			rv.CheckAndCompact()
+		}
+		steps = append(steps, fmt.Sprintf("%s[levels=%v]", what, rv.LevelLens()))
+		if what != "Flush" {
+			if sig, d := judgeDirStep(before, rv.Tables(), 0); sig != "" {
+				res.Violate("C09", "C09/recovered-handles/dump/"+sig, "%s\nafter recovery of %d tables, steps on the recovered handles: %s", d, n, strings.Join(steps, " ; "))
+				break
+			}
+		}
+		n0 := len(res.Violations)
+		checkLookups(rv, set, users, absent, "recovered-handles-after-"+what, 0, &res, "C09", "C09/lookup")
+		if len(res.Violations) > n0 {
+			res.Violations[len(res.Violations)-1].Detail += fmt.Sprintf("\nafter recovery of %d tables, steps on the recovered handles: %s", n, strings.Join(steps, " ; "))
+		}
+	}
+	if res.Verdict == "" {
+		// and what a second recovery finds on disk is the same again
+		rv2, _ := rv.Recover()
+		checkLookups(rv2, set, users, absent, "second-recovery", 0, &res, "C09", "C09/lookup")
+		rv2.Close()
+	}
+	res.AddObs("recovered_continue_cases", 1)
+	res.AddObs("tables_at_recovery", int64(n))
+	res.NonTrivial = n >= 11
+	res.Hash = core.HashOf([]any{c.Seed, steps})
+	return res
+}
+
 func runC09(c core.Case) core.Result {
 	if c.Kind == "db" {
 		return runC09db(c)
+	}
+	if c.Kind == "recovered" {
+		return runC09Recovered(c)
 	}
 	var res core.Result
 	r := rand.New(rand.NewSource(c.Seed))
@@ -388,6 +492,13 @@ func genC09(tier string, seed int64) []core.Case {
 		}
 		cs = append(cs, c)
 	}
+	nrec := 30
+	if tier == "thorough" {
+		nrec = 600
+	}
+	for i := 0; i < nrec; i++ {
+		cs = append(cs, core.Case{ID: fmt.Sprintf("rec%05d", i), Kind: "recovered", Seed: r.Int63()})
+	}
 	ndb := 12
 	if tier == "thorough" {
 		ndb = 150
@@ -435,8 +546,8 @@ func c09SelfTest() error {
 func init() {
 	core.Register(&core.Check{
 		Prop: "C09", Level: "exploration",
-		Rule: "case = 2-12 generated tables (1-40 entries, several versions and tombstones per key, duplicates across tables, hostile/windowed/long/binary keys) in a standalone level manager, block size/L0 target/ratio drawn, then 1-5 steps of CompactL0 / CompactLN(n) / CheckAndCompact / further flush / watermark raise (0, 1, a version, version+1, max, beyond); after every compaction: directory dump before vs after (only versions shadowed at or below the watermark may vanish, nothing appears or changes, tables sorted) and every key x timestamp >= watermark looked up against the brute-force model of everything flushed; finally the same lookups on handles rebuilt by recovery; non-trivial = a compaction happened, >=1 version was legitimately dropped and >=1 tombstone survived; db cases: a sequential database workload (as C01) in which every real compaction - real watermark, real tables - is judged in situ by the same input/output oracle through the compaction hook, non-trivial = compactions ran with a watermark > 0 and dropped versions; distinct by hash of layout+steps / case parameters",
-		Gen: genC09, Run: runC09, BatchSize: 10, GoMaxProcs: 1, Parallel: 8,
+		Rule: "case = 2-12 generated tables (1-40 entries, several versions and tombstones per key, duplicates across tables, hostile/windowed/long/binary keys) in a standalone level manager, block size/L0 target/ratio drawn, then 1-5 steps of CompactL0 / CompactLN(n) / CheckAndCompact / further flush / watermark raise (0, 1, a version, version+1, max, beyond); after every compaction: directory dump before vs after (only versions shadowed at or below the watermark may vanish, nothing appears or changes, tables sorted) and every key x timestamp >= watermark looked up against the brute-force model of everything flushed; finally the same lookups on handles rebuilt by recovery; non-trivial = a compaction happened, >=1 version was legitimately dropped and >=1 tombstone survived; recovered cases: 10-12 small tables pile up in L0 (file indices with one and two digits), the handles are rebuilt by recovery, then 2-5 further flushes/compactions run ON the recovered handles, each judged like a direct step, and a second recovery is compared again; db cases: a sequential database workload (as C01) in which every real compaction - real watermark, real tables - is judged in situ by the same input/output oracle through the compaction hook, non-trivial = compactions ran with a watermark > 0 and dropped versions; distinct by hash of layout+steps / case parameters",
+		Gen:  genC09, Run: runC09, BatchSize: 10, GoMaxProcs: 1, Parallel: 8,
 		SelfTest:      c09SelfTest,
 		MinNonTrivial: map[string]int{"quick": 20, "thorough": 500},
 		Assumptions:   []string{"watermark is driven through the verif accessor on the level manager's own oracle.readMark", "tables are built only from sorted lists of unique versioned keys; equal versions have equal content"},
